@@ -116,6 +116,7 @@ func propC09(w *World, r *Report) {
 	checkSegmentSkip(w, r)
 	checkSegDelta(w, r)
 	checkFormat0Len(w, r)
+	checkDecoderParam(w, r)
 	checkPlatformRange(w, r)
 	r.Floor("segmentskip", 1)
 	checkOverlapStrict(w, r, newBoundsRun(w))
